@@ -1227,4 +1227,108 @@ def wEnv : Env :=
     tapCommit := fun _ leaf => if leaf == [0x01, 0xaa, 0x75, 0x51] then .ok (List.replicate 32 7, true)
                                else .error .valueError }
 
+/-! ## script path and tapscript multisig, forward direction -/
+
+/-- script path, forward: witness `sigs… <script> <control block>` (no annex) whose control block commits
+    the script bytes to the output key: evaluation continues with the signatures and the script's commands
+    under the tapscript table -/
+theorem run_p2tr_scriptpath (env : Env) (x : Bytes) (hl : x.length = 32) (alt : Stack) (sigs : List Bytes)
+    (rawTap cb v rest : Bytes) (tapScript : Script.Script) (b0 : UInt8) (r0 : Bytes) (hcb : cb = b0 :: r0)
+    (hb0 : b0.toNat ≠ 80) (hcbe : env.cbErr cb = none) (hv : encodeVarstr rawTap = some v)
+    (hparse : Script.parse v = some (tapScript, rest)) (hraw : rawTap ≠ [])
+    (htc : env.tapCommit cb rawTap = .ok (x, true)) (fuel : Nat) :
+    run Cfg.repaired env (fuel + 2) ⟨p2trSpk x, [], alt, some (sigs ++ [rawTap, cb]), false⟩ =
+      run Cfg.repaired env fuel ⟨sigs.map .push ++ tapScript.cmds, [], alt, some (sigs ++ [rawTap, cb]), true⟩ := by
+  have h81 : (0x51 : Nat) = 80 + 1 := rfl
+  rw [p2trSpk, run_cons _ _ (fuel + 1) _ (.op 0x51) [.push x] rfl, h81, step_num _ _ _ 1 (by omega) (by omega)]
+  simp only
+  rw [run_cons _ _ fuel _ (.push x) [] rfl, step_push_end _ _ _ rfl]
+  have e1 : encodeNum ((1 : Nat) : Int) = [1] := rfl
+  simp only [e1]
+  have n20 : ¬ ((32 : Nat) = 20) := by decide
+  have n1 : ¬ (([1] : Bytes) = []) := by simp
+  have hrev : (sigs ++ [rawTap, cb]).reverse = cb :: rawTap :: sigs.reverse := by simp
+  have hlen : (sigs ++ [rawTap, cb]).length = sigs.length + 2 := by simp
+  have ha : hasAnnex (sigs ++ [rawTap, cb]) = .ok false := by
+    unfold hasAnnex
+    have : ¬ (sigs ++ [rawTap, cb]).length < Gen.opAnnexMinItems := by simp [Gen.opAnnexMinItems]
+    rw [if_neg this, hrev, hcb]
+    simp [Gen.opAnnexTag, hb0]
+  have hf1 : fromEnd (sigs ++ [rawTap, cb]) 1 = .ok cb := by simp [fromEnd, hrev]
+  have hf2 : fromEnd (sigs ++ [rawTap, cb]) 2 = .ok rawTap := by simp [fromEnd, hrev]
+  have htake : (sigs ++ [rawTap, cb]).take ((sigs ++ [rawTap, cb]).length - 2) = sigs := by
+    rw [hlen]; simp
+  have hl0 : ¬ (sigs.length + 2 = 0) := by omega
+  have hl1 : ¬ (sigs.length + 2 = 1) := by omega
+  have hl2 : sigs.length + 2 > 1 := by omega
+  simp only [witnessRules, hl, n20, n1, and_false, false_and, if_false, true_and, if_true, and_self, ha, Res.toOut,
+    Bool.false_eq_true, hlen, hl0, hl1, hl2, hf1, hf2, hcbe, hv, hparse, Cfg.repaired, Bool.true_and, hraw,
+    ne_eq, not_false_eq_true, decide_true, htc, Bool.not_true, htake]
+  simp
+
+theorem checksigadd_forward (env : Env) (x sig : Bytes) (c : Nat) (s : Stack) (r : Option Bool)
+    (h : schnorrCheck env x sig = .ok r) :
+    op_checksigadd_schnorr env (x :: encodeNum (c : Int) :: sig :: s)
+      = .ok (encodeNum ((c + sigCount env x sig : Nat) : Int) :: s) := by
+  simp only [op_checksigadd_schnorr, decodeNum_encodeNum, h, Res.bind, sigCount]
+  cases r with
+  | none => simp
+  | some b => cases b <;> simp
+
+theorem checksig_forward (env : Env) (x sig : Bytes) (s : Stack) (r : Option Bool)
+    (h : schnorrCheck env x sig = .ok r) :
+    op_checksig_schnorr env (x :: sig :: s) = .ok (encodeNum ((sigCount env x sig : Nat) : Int) :: s) := by
+  simp only [op_checksig_schnorr, h, Res.bind, sigCount]
+  cases r with
+  | none => simp
+  | some b => cases b <;> simp [boolNum]
+
+/-- every (key, signature) pair can be checked without an exception -/
+def ChecksOK (env : Env) : List Bytes → List Bytes → Prop
+  | x :: xs, s :: ss => (∃ r, schnorrCheck env x s = .ok r) ∧ ChecksOK env xs ss
+  | [], [] => True
+  | _, _ => False
+
+theorem addChain_complete (env : Env) (k : Nat) (hk : 1 ≤ k ∧ k ≤ 16) (alt : Stack) (wit : Option (List Bytes)) :
+    ∀ (xs sigs : List Bytes) (c : Nat) (rest : Stack) (fuel : Nat), ChecksOK env xs sigs →
+      c + countValid env xs sigs = k → 2 * xs.length + 2 ≤ fuel →
+      run Cfg.repaired env fuel ⟨addChain xs ++ [.op (80 + k), .op 0x87], encodeNum (c : Int) :: (sigs ++ rest), alt, wit, true⟩
+        = .accept := by
+  intro xs
+  induction xs with
+  | nil =>
+    intro sigs c rest fuel hok hcnt hf
+    cases sigs with
+    | cons s ss => simp [ChecksOK] at hok
+    | nil =>
+      obtain ⟨f, rfl⟩ : ∃ f, fuel = f + 2 := ⟨fuel - 2, by omega⟩
+      simp only [addChain, List.flatMap_nil, List.nil_append]
+      rw [run_cons _ _ (f + 1) _ (.op (80 + k)) [.op 0x87] rfl, step_num _ _ _ k hk.1 hk.2]
+      simp only
+      rw [run_cons _ _ f _ (.op 0x87) [] rfl,
+        step_op _ _ _ true 0x87 .equal rfl (by decide) (by decide) (by decide)]
+      simp only [applyStackFn, op_equal, Res.toOut]
+      rw [run_nil _ _ _ _ rfl]
+      have : c = k := by simpa [countValid] using hcnt
+      subst this
+      simp [finalTest, Cfg.repaired, op_verify, decodeNum_boolNum]
+  | cons x xs ih =>
+    intro sigs c rest fuel hok hcnt hf
+    cases sigs with
+    | nil => simp [ChecksOK] at hok
+    | cons s ss =>
+      obtain ⟨⟨r, hr⟩, hok'⟩ := hok
+      obtain ⟨f, rfl⟩ : ∃ f, fuel = f + 2 := ⟨fuel - 2, by simp at hf; omega⟩
+      have e : addChain (x :: xs) ++ [.op (80 + k), .op 0x87]
+          = .push x :: .op 0xBA :: (addChain xs ++ [.op (80 + k), .op 0x87]) := by simp [addChain]
+      rw [e, run_cons _ _ (f + 1) _ (.push x) (.op 0xBA :: (addChain xs ++ [.op (80 + k), .op 0x87])) rfl,
+        step_push_first env _ x (.op 0xBA) _ rfl (by simp)]
+      simp only
+      rw [run_cons _ _ f _ (.op 0xBA) (addChain xs ++ [.op (80 + k), .op 0x87]) rfl,
+        step_op _ _ _ true 0xBA .checksigaddSchnorr rfl (by decide) (by decide) (by decide)]
+      simp only [applyStackFn, List.cons_append]
+      rw [checksigadd_forward env x s c (ss ++ rest) r hr]
+      simp only [Res.toOut]
+      exact ih ss (c + sigCount env x s) rest f hok' (by simp [countValid] at hcnt; omega) (by simp at hf; omega)
+
 end Buidl.Interp
